@@ -382,6 +382,18 @@ func RunPool(o PoolOpts, n int, onResult func(CaseResult)) (int, error) {
 					}
 				}
 				res, alive := runCase(c, i, o.CaseTimeout)
+				if !alive && res.Death != nil && res.Death.Kind == "timeout" {
+					// the watchdog is not an oracle: on a starved machine a healthy case can exceed
+					// it. A hang is only reported when the case, alone on a fresh worker and with
+					// three times the budget, does not end either.
+					if c2, err := startChild(o); err == nil {
+						res2, alive2 := runCase(c2, i, 3*o.CaseTimeout)
+						res = res2
+						if alive2 {
+							c, alive = c2, true
+						}
+					}
+				}
 				if !alive {
 					c = nil
 					if res.Death != nil && res.Death.Probe == "" && res.Death.Kind != "timeout" {
